@@ -50,6 +50,8 @@ def gen_case(rng):
                 a1["argv"] = [a1["flag"], f"{a1['name']}={a1['spec']}"]
         elif rng.random() < 0.7:
             ads2 = [G.gen_adapter(rng, i, upper=True, prefix="bd", kinds=kinds) for i in range(rng.randint(1, 2))]
+            if rng.random() < 0.25:
+                ads1 = []          # adapters for R2 only
     wild = rng.random() < 0.25
     if wild:
         # put N wildcards into some adapters (effective length < length)
@@ -78,7 +80,7 @@ def gen_case(rng):
     if revcomp:
         opts += ["--revcomp"]
     cores = rng.choice([1, 1, 2, 3])
-    recs1, recs2 = G.gen_reads(rng, rng.randint(20, 50), paired, ads1, ads2 or ads1, maxlen=35, revcomp_some=revcomp, nruns=True,
+    recs1, recs2 = G.gen_reads(rng, rng.randint(20, 50), paired, ads1 if (ads1 or not revcomp) else ads2, ads2 or ads1, maxlen=35, revcomp_some=revcomp, nruns=True,
                                qual_profile="high", lower=rng.random() < 0.2)
     return dict(paired=paired, ads1=ads1, ads2=ads2, opts=opts, rate=float(rate), times=times, action=action, revcomp=revcomp,
                 pair_adapters=pair_adapters, cores=cores, recs1=recs1, recs2=recs2 if paired else None, wild=wild)
@@ -239,6 +241,8 @@ def one_case(ctx, k):
             if d1 != d2:
                 ranks = ([a["name"] for a in c["ads1"]], [a["name"] for a in c["ads2"]], 2 if d1 else 1)
                 ctx.count("pair_adapter_runs_with_a_shared_adapter")
+        if c["paired"] and not c["ads1"]:
+            ctx.count("paired_runs_with_adapters_for_r2_only" + ("_and_revcomp" if c["revcomp"] else ""))
         t1, wa1, nrc = tally_matches(groups, 1, ranks)
         check_side(ctx, c, case, rep["adapters_read1"], t1, 1, viol)
         if (rep["read_counts"]["read1_with_adapter"] or 0) != wa1:
